@@ -96,8 +96,25 @@ func (ev *Ev) specCall(x *ast.CallExpr) Value {
 		if r, ok := ev.st.lets["ret:"+f.T]; ok && i < len(r.Tuple) {
 			return r.Tuple[i]
 		}
-		// never called on this path: unconstrained
-		return scalar(u.fresh("noret", SRef), SRef, nil)
+		// never called on this path (or called inside a callee): unconstrained, but the same value at every mention
+		nk := fmt.Sprintf("noret:%s:%d", f.T, i)
+		if v, ok := ev.st.lets[nk]; ok {
+			return v
+		}
+		nv := scalar(u.fresh("noret", SRef), SRef, nil)
+		if f.Typ != nil {
+			if sig, ok := f.Typ.Underlying().(*types.Signature); ok && i < sig.Results().Len() {
+				nv = u.freshValue(sig.Results().At(i).Type(), "noret", ev.st)
+			}
+		}
+		ev.st.lets[nk] = nv
+		if ev.old != nil {
+			ev.old.lets[nk] = nv
+		}
+		if u.entry != nil {
+			u.entry.lets[nk] = nv
+		}
+		return nv
 	case "argOf":
 		f := ev.expr(x.Args[0])
 		i := 0
@@ -148,6 +165,9 @@ func (ev *Ev) specCall(x *ast.CallExpr) Value {
 		v := ev.expr(x.Args[2])
 		if ks == SRef && k.S != SRef {
 			k = ev.box(k)
+		}
+		if ks == SReal && k.S == SInt {
+			k = scalar(toReal(k.T), SReal, nil)
 		}
 		if vs == SRef && v.S != SRef {
 			v = ev.box(v)
@@ -282,6 +302,11 @@ func (ev *Ev) specCall(x *ast.CallExpr) Value {
 			if _, bound := ev.binds[id.Name]; !bound {
 				if p := ev.lookupPkgIfNotVar(id.Name); p != nil {
 					obj := p.Scope().Lookup(sel.Sel.Name)
+					if obj == nil {
+						if sf, ok := u.eng.cs.Specs[p.Path()+"."+sel.Sel.Name]; ok {
+							return ev.applySpec(sf, x)
+						}
+					}
 					switch o := obj.(type) {
 					case *types.TypeName:
 						return ev.convert(ev.expr(x.Args[0]), o.Type(), x)
@@ -428,7 +453,7 @@ func (ev *Ev) applySpec(sf *SpecFunc, x *ast.CallExpr) Value {
 					} else if s == SRef && v.S != SRef {
 						v = ev.box(v)
 					}
-					if _, _, isArr := v.S.isArray(); !isArr {
+					if _, _, isArr := v.S.isArray(); !isArr && !sameGenericOrigin(v.Typ, t) {
 						v.Typ = t
 					}
 				}
@@ -462,7 +487,7 @@ func (ev *Ev) specGoCall(fo *types.Func, recv *Value, x *ast.CallExpr) Value {
 				sorts = append(sorts, a.S)
 				ts = append(ts, a.T)
 			}
-			fn := ev.u.declareFun(quote("pure:"+key), sorts, ev.u.sortOf(rt))
+			fn := ev.u.declareFun(pureName(key, sorts), sorts, ev.u.sortOf(rt))
 			return scalar(app(fn, ts...), ev.u.sortOf(rt), rt)
 		}
 		return ev.errorf(x.Pos(), "Go function %s used in a contract has no contract", key)
@@ -595,4 +620,24 @@ func (ev *Ev) applySpecFn(sf *SpecFunc, sub *Ev, x *ast.CallExpr) Value {
 		u.axioms = append(u.axioms, app("=", appT, inst.expr(sf.Body).T))
 	}
 	return scalar(appT, rs, rt)
+}
+
+// sameGenericOrigin: a is an instantiation of the generic type b (possibly behind a pointer): keep the instantiated type so
+// that heap families are named consistently with the call site.
+func sameGenericOrigin(a, b types.Type) bool {
+	if a == nil || b == nil {
+		return false
+	}
+	if pa, ok := a.(*types.Pointer); ok {
+		if pb, ok := b.(*types.Pointer); ok {
+			return sameGenericOrigin(pa.Elem(), pb.Elem())
+		}
+		return false
+	}
+	na, ok1 := a.(*types.Named)
+	nb, ok2 := b.(*types.Named)
+	if !ok1 || !ok2 {
+		return false
+	}
+	return na.TypeArgs() != nil && na.TypeArgs().Len() > 0 && na.Origin() == nb.Origin()
 }
